@@ -529,6 +529,8 @@ func (l *Lexer) shiftEndTag() []byte {
 func (l *Lexer) shiftXML(rawTag Hash) []byte {
 	inTag := true    // we start inside the svg or math start tag
 	quote := byte(0) // quote character of the attribute value we are in, or zero
+	depth := 0       // number of open nested elements of the same name
+	nested := false  // we are inside the start tag of a nested element of the same name
 	for {
 		c := l.r.Peek(0)
 		if quote != 0 && c != 0 {
@@ -540,12 +542,23 @@ func (l *Lexer) shiftXML(rawTag Hash) []byte {
 			if c == '"' || c == '\'' {
 				quote = c
 			} else if c == '>' {
+				if nested && l.r.Peek(-1) != '/' {
+					depth++
+				}
 				inTag = false
 			}
 			l.r.Move(1)
 		} else if c == '<' && ('a' <= l.r.Peek(1) && l.r.Peek(1) <= 'z' || 'A' <= l.r.Peek(1) && l.r.Peek(1) <= 'Z') {
 			inTag = true
-			l.r.Move(2)
+			l.r.Move(1)
+			mark := l.r.Pos()
+			for {
+				if c = l.r.Peek(0); !('a' <= c && c <= 'z' || 'A' <= c && c <= 'Z') {
+					break
+				}
+				l.r.Move(1)
+			}
+			nested = ToHash(parse.ToLower(parse.Copy(l.r.Lexeme()[mark:]))) == rawTag && isTagNameEnd(c)
 		} else if c == '<' && l.r.Peek(1) == '/' {
 			mark := l.r.Pos()
 			l.r.Move(2)
@@ -556,7 +569,10 @@ func (l *Lexer) shiftXML(rawTag Hash) []byte {
 				l.r.Move(1)
 			}
 			if h := ToHash(parse.ToLower(parse.Copy(l.r.Lexeme()[mark+2:]))); h == rawTag { // copy so that ToLower doesn't change the case of the underlying slice
-				break
+				if depth == 0 {
+					break
+				}
+				depth--
 			}
 		} else if c == 0 {
 			if l.r.Err() == nil {
